@@ -28,8 +28,10 @@ class RemoveTransposeConstants(RewritePattern):
     def match_and_rewrite(self, op: linalg.GenericOp, rewriter: PatternRewriter):
         # find transpose generics on constants and just do it directly
 
-        # transpose op has only yield
-        if not isinstance(op.body.block.first_op, linalg.YieldOp):
+        # transpose op has only yield, of the input element
+        if not isinstance(yield_op := op.body.block.first_op, linalg.YieldOp):
+            return
+        if tuple(yield_op.operands) != (op.body.block.args[0],):
             return
 
         # check for transpose:
